@@ -640,6 +640,11 @@ impl World {
                         if got != Err(ObserverError::CurrentlyStabilising) {
                             violation("C07/observer-readable-inside-node-function", format!("observer slot {k} read from inside {:?} returned {got:?}", inv.key));
                         }
+                        // the panicking accessor must not hand out a value either
+                        let h2 = h.clone();
+                        if let Ok(v) = catch(move || h2.value()) {
+                            violation("C07/value()-readable-inside-node-function", format!("Observer::value() called from inside {:?} returned {v:?} for observer slot {k}", inv.key));
+                        }
                     }
                 }
             }));
